@@ -12,6 +12,10 @@ for d in sorted(glob.glob(os.path.join(V, "seeded", pat))):
     if not os.path.exists(diff):
         continue
     meta = json.load(open(os.path.join(d, "meta.json")))
+    if meta.get("out_of_scope"):
+        rows.append((os.path.basename(d), "out-of-scope (documented, not expected to be caught)", 0, ""))
+        print(*rows[-1], flush=True)
+        continue
     pid = meta.get("detected_by") or meta["property"]  # a change outside its own property's domain is listed with the check that owns it
     S = tempfile.mkdtemp(prefix="scratch-", dir="/tmp")
     try:
